@@ -1137,7 +1137,19 @@ pub fn gen_det_bulk_op(rng: &mut Rng) -> Op {
             data = half.iter().flat_map(|&v| [v, -v]).collect();
         }
         let offset = if data.len() != n { 0 } else { offset };
-        op.aux = vec![data, vec![rng.range(0, 8)], vec![rng.below(2) as i64], vec![offset]];
+        // shape / layout of the moment data: 1-D, or the same values as a small 2-D / 3-D array in C / F order or with reversed axes
+        let len = data.len();
+        let mut shape: Vec<i64> = vec![len as i64];
+        if rng.chance(1, 2) {
+            for d0 in [2usize, 3, 4, 5, 7] {
+                if len % d0 == 0 && len / d0 >= 1 && rng.chance(1, 2) {
+                    let rest = len / d0;
+                    shape = if rest % 2 == 0 && rng.chance(1, 2) { vec![d0 as i64, 2, (rest / 2) as i64] } else { vec![d0 as i64, rest as i64] };
+                    break;
+                }
+            }
+        }
+        op.aux = vec![data, vec![rng.range(0, 8)], vec![rng.below(2) as i64], vec![offset], shape, vec![rng.below(3) as i64]];
         op
     } else {
         let mut op = new_op(rng, "weighted_axis");
